@@ -108,10 +108,52 @@ def segments_search(case):
     return False, f"{tried} (starts, indices) pairs over arrays of 0..4 atoms all agree with the per-atom recomputation"
 
 
+def starts_search(case):
+    """guided search for get_residue_starts / get_chain_starts: every array of 0..4 atoms over a pool of annotation
+    rows, through the function text of the tree the VCs came from (on a real AtomArray), against the per-atom rule"""
+    import ast
+    import itertools
+    import os
+    import numpy as np
+    import biotite.structure as struc
+    from replayers.common import REPO_SRC
+    residue = "get_residue_starts" in case
+    name = "get_residue_starts" if residue else "get_chain_starts"
+    stop = "add_exclusive_stop=True" in case
+    path = os.path.join(REPO_SRC, "structure/residues.py" if residue else "structure/chains.py")
+    fn = [x for x in ast.parse(open(path).read()).body if isinstance(x, ast.FunctionDef) and x.name == name]
+    ns = {"np": np}
+    exec(compile(ast.Module(fn, []), path, "exec"), ns)
+    f = ns[name]
+    pool = [("A", 1, "", "GLY"), ("A", 2, "", "GLY"), ("B", 1, "", "GLY"), ("A", 1, "A", "GLY"), ("A", 1, "", "ALA"), ("A", 0, "", "GLY")]
+    tried = 0
+    for n in range(0, 5):
+        for rows in itertools.product(pool, repeat=n):
+            tried += 1
+            a = struc.AtomArray(n)
+            for i, (c, r, ic, rn) in enumerate(rows):
+                a.chain_id[i], a.res_id[i], a.ins_code[i], a.res_name[i] = c, r, ic, rn
+            if residue:
+                want = [0] + [i for i in range(1, n) if rows[i] != rows[i - 1]]
+            else:
+                want = [0] + [i for i in range(1, n) if rows[i][0] != rows[i - 1][0] or rows[i][1] < rows[i - 1][1]]
+            want = [] if n == 0 else want + ([n] if stop else [])
+            call = f"{name}(array with (chain, res_id, ins_code, res_name) rows {list(rows)}, add_exclusive_stop={stop})"
+            try:
+                got = np.asarray(f(a, add_exclusive_stop=stop)).tolist()
+            except Exception as e:
+                return True, f"{call} raised {type(e).__name__}: {e}"
+            if got != want:
+                return True, f"{call} = {got}, per-atom rule gives {want}"
+    return False, f"{tried} arrays of 0..4 atoms all agree with the per-atom rule"
+
+
 def main():
     rec = json.load(open(sys.argv[1]))
     try:
-        if "segments.py" in rec.get("case", ""):
+        if "get_residue_starts" in rec.get("case", "") or "get_chain_starts[" in rec.get("case", ""):
+            rep, detail = starts_search(rec["case"])
+        elif "segments.py" in rec.get("case", ""):
             rep, detail = segments_search(rec["case"])
         elif "recursion_depth" in rec["obligation"]:
             rep, detail = replay_depth()
